@@ -10,6 +10,8 @@ CONSTANTS
   N4 = 0
   A5 = {}
   N5 = 0
+  A6 = {}
+  N6 = 0
   MAX = 32767
   MaxDigits <- Int64MaxDigits
   Extra <- FileTexts
